@@ -135,7 +135,10 @@ theorem seg_data (hn : (rd.h.mtype == cfg.mtSetName) = false) (hr : (rd.h.mtype 
   have tL : Top cfg (logAt cfg (fwdTop cfg) 10 (rdState cfg s rd)) := top_log ok hfuel t0 10
   have nL := logTop_nest cfg 10 (rdState cfg s rd)
   have pL := (logAt_ok cfg (tag_ack cfg) (fwdTop_ok cfg (tag_ack cfg)) 10 (rdState cfg s rd)).1
+  have hall : OrdAll cfg := OrdAll_of_perm hperm
+  have dtL := dt_log ok hall hfuel t0 10
   generalize hsLdef : logAt cfg (fwdTop cfg) 10 (rdState cfg s rd) = sL at *
+  have dt := dtL.bind (fun h' => dt_fwd ok hall hfuel h' fr (by unfold aboutOf; rw [hfk]))
   have n := nL.trans (fwdTop_nest cfg sL fr)
   have qa : Quiet isAck (rdState cfg s rd) (fwdTop cfg sL fr) := by
     rw [← hsLdef]; exact (qa_log cfg 10 _).trans (qa_fwd cfg _ fr hfb)
@@ -309,7 +312,8 @@ theorem seg_data (hn : (rd.h.mtype == cfg.mtSetName) = false) (hr : (rd.h.mtype 
           · simp [halv, (subscribed_iff hsmu rd.h.mtype ht).mpr hsubs]
           · rw [hauid]; simp [hel, hnfA]
   have hW : Spec.CoreExt others (Spec.afterBuf cfg a rd) (Spec.checkDepartures cfg Z none evs) :=
-    ((ext_others hdata).trans (core_others hZ)).trans (ext_others (Spec.checkDepartures_ext cfg Z _ evs))
+    ((ext_others hdata).trans (core_others hZ)).trans (ext_others (dep_ext hs0 t0 n q evs he
+      (hdata.core.trans (hZ.mono (by simp))) none dt.dep (fun u hu => by cases hu)))
   exact segGoal_of hseg rfl (seg_close hs0 t0 n q evs he hW)
 
 end data
@@ -317,7 +321,7 @@ end data
 /-! ## CLIENT_SET_NAME and MODULE_READY: a field of the record, then CLIENT_INFO -/
 
 section nameReady
-variable {cfg : Cfg} (ok : CfgOK cfg) (hfuel : cfg.fuel = 0)
+variable {cfg : Cfg} (ok : CfgOK cfg) (hfuel : cfg.fuel = 0) (hall : OrdAll cfg)
   {a : A} {s : State} (inv : Inv cfg a s) (rd : Read) (hu0 : rd.uid ≠ 0) (m : Module) (hm : s.find rd.uid = some m)
   (am : AMod) (hget : a.get rd.uid = some am) (hal : am.alive = true)
   (s2 : State) (evs : List Ev) (he : s2.out = (rdState cfg s rd).out ++ evs)
@@ -326,7 +330,7 @@ variable {cfg : Cfg} (ok : CfgOK cfg) (hfuel : cfg.fuel = 0)
   (hd : (rd.h.mtype == cfg.mtDisconnect) = false)
   (hs : (rd.h.mtype == cfg.mtSubscribe || rd.h.mtype == cfg.mtResume || rd.h.mtype == cfg.mtUnsubscribe ||
       rd.h.mtype == cfg.mtPause) = false)
-include ok hfuel inv hu0 hm hget hal he hb q hc hd hs
+include ok hfuel hall inv hu0 hm hget hal he hb q hc hd hs
 
 theorem seg_setName (hn : (rd.h.mtype == cfg.mtSetName) = true) (nm : List Nat)
     (hnm : cstr (rdState cfg s rd).buf 0 32 = some nm) : SegGoal cfg a rd evs s2 := by
@@ -364,7 +368,8 @@ theorem seg_setName (hn : (rd.h.mtype == cfg.mtSetName) = true) (nm : List Nat)
       (Spec.checkInfos (Spec.checkDepartures cfg (Spec.checkAcks cfg
         ((Spec.afterBuf cfg a rd).upd rd.uid (fun m => { m with name := nm })) rd.uid false evs) none evs) evs) := by
     rw [Spec.checkAcks_false_ok cfg _ rd.uid evs hnil]
-    have hD := Spec.checkDepartures_ext cfg ((Spec.afterBuf cfg a rd).upd rd.uid (fun m => { m with name := nm })) none evs
+    have hD := dep_ext hs0 t0 n q evs he' (Spec.CoreExt.refl [] _) none
+      ((dt_log ok hall hfuel t0 20).bind (fun h' => dt_infoOf ok hall hfuel h' m0)).dep (fun u hu => by cases hu)
     rw [checkInfos_pass hs0 hinfo evs he' (fun _ _ h => h.elim) hD.mods]
     exact ext_others hD
   exact segGoal_of hseg rfl (seg_close hs0 t0 n q evs he' hW)
@@ -398,7 +403,8 @@ theorem seg_ready (hn : (rd.h.mtype == cfg.mtSetName) = false) (hr : (rd.h.mtype
       (Spec.checkInfos (Spec.checkDepartures cfg (Spec.checkAcks cfg
         ((Spec.afterBuf cfg a rd).upd rd.uid (fun m => { m with pid := pid })) rd.uid false evs) none evs) evs) := by
     rw [Spec.checkAcks_false_ok cfg _ rd.uid evs hnil]
-    have hD := Spec.checkDepartures_ext cfg ((Spec.afterBuf cfg a rd).upd rd.uid (fun m => { m with pid := pid })) none evs
+    have hD := dep_ext hs0 t0 n q evs he' (Spec.CoreExt.refl [] _) none
+      (dt_sendInfo ok hall hfuel t0 rd.uid).dep (fun u hu => by cases hu)
     rw [checkInfos_pass hs0 hinfo evs he' (fun _ _ h => h.elim) hD.mods]
     exact ext_others hD
   exact segGoal_of hseg rfl (seg_close hs0 t0 n q evs he' hW)
